@@ -103,10 +103,43 @@ def try_build(name, kw, k=1.0):
         return None, e
 
 
+_TWIN = [0]
+# configuration values that have nothing to do with the shape of a groove (solver precision and limits, rotation switch, surface / profile sampling)
+UNRELATED_CONFIG = {'DEFAULT_ITERATION_PRECISION': 0.06, 'DEFAULT_MAX_ITERATION_COUNT': 3, 'ROLL_PASS_AUTO_ROTATION': False,
+                    'ROLL_SURFACE_DISCRETIZATION_COUNT': 7, 'PROFILE_CONTOUR_REFINEMENT': 13}
+
+
+def config_twin(chk, name, kw, g, label):
+    """what is accepted, what is rejected and which contour is handed out does not depend on configuration values that do not describe grooves"""
+    from pyroll.core import Config
+    old = {}
+    for k, v in UNRELATED_CONFIG.items():
+        if hasattr(type(Config), k) or hasattr(Config, k):
+            old[k] = getattr(Config, k)
+            setattr(Config, k, v)
+    try:
+        g2, e2 = try_build(name, kw)
+    finally:
+        for k, v in old.items():
+            setattr(Config, k, v)
+    same = (g is None) == (g2 is None)
+    if same and g is not None:
+        a, b = np.asarray(g.contour_points), np.asarray(g2.contour_points)
+        same = a.shape == b.shape and bool(np.all(a == b))
+    if not same and not any(f.key == 'config-dependent' for f in chk.failures):
+        chk.fail('config-dependent', f"{name}{kw} ({label}) is {'returned' if g is not None else 'rejected'} under the default configuration and "
+                 f"{'returned' if g2 is not None else 'rejected'}{' with another contour' if g is not None and g2 is not None else ''} when "
+                 f"{sorted(old)} are changed to {[UNRELATED_CONFIG[k] for k in sorted(old)]} (values that do not describe grooves)",
+                 {'groove': name, 'kwargs': kw, 'stream': label, 'config': {k: UNRELATED_CONFIG[k] for k in old}})
+
+
 def judge(chk, name, kw, label, must_build=False, must_raise=False):
     g, e = try_build(name, kw)
     chk.cov['evaluations'] += 1
     data = {'groove': name, 'kwargs': kw, 'stream': label}
+    _TWIN[0] += 1
+    if _TWIN[0] % 2 == 0 or label == 'catalogue':
+        config_twin(chk, name, kw, g, label)
     if g is None:
         chk.x_stats['streams'][label]['rejected'] += 1
         if must_build:
@@ -134,7 +167,7 @@ PERTURB_ANG = (0.5, 5, 30, 45, 60, 85, 89.9, 90, 95, 120, 180)
 
 def streams(chk, rng):
     S = chk.x_stats['streams'] = {k: {'returned': 0, 'rejected': 0} for k in
-                                  ('catalogue', 'pad', 'perturbed', 'negative', 'non-finite', 'too-few', 'too-many', 'generic-arity')}
+                                  ('catalogue', 'pad', 'near-miss', 'perturbed', 'negative', 'non-finite', 'too-few', 'too-many', 'generic-arity')}
     pads = (None, 30, 45) if chk.thorough else (None, 30)
     built = []
     for name, kw in CATALOGUE:
@@ -155,6 +188,18 @@ def streams(chk, rng):
                 if blocking(chk):
                     return built
                 judge(chk, name, kw2, 'pad')
+    # near misses: a small even ground (0.4 .. 5 % of the usable width) squeezed into a groove that is otherwise fully determined - the arcs then
+    # miss each other by a small step; returned => well-formed, and (config twin) the verdict does not depend on unrelated settings
+    for name, kw in CATALOGUE:
+        if 'even_ground_width' in kw or kw.get('pad_angle'):
+            continue
+        g0, _ = try_build(name, kw)
+        if g0 is None:
+            continue
+        for eps in (0.004, 0.0075, 0.02, 0.05):
+            if blocking(chk):
+                return built
+            judge(chk, name, dict(kw, even_ground_width=eps * g0.usable_width), 'near-miss')
     # perturbed parameters: returned => well-formed
     todo = []
     for name, kw in CATALOGUE:
